@@ -1,9 +1,23 @@
 (* C01 — Named-dimension addressing reads and writes exactly the addressed element.
    This file contains only the property theorems (closed by `exact`), their assumption audit
    and the non-vacuity example.  Definitions: Model/Shape.v, Model/Tensor.v (transcription of
-   the code), Proofs/C01P.v (specification: addr_by_name, shape_by_name). *)
+   DimensionMappings, get_index_direct, Tensor::from / try_from, TensorAccess), Model/TensorFn.v
+   (Tensor::from_fn over the transcribed ShapeIterator, from_source_order / from_memory_order,
+   the panicking accessors), Proofs/C01P.v (specification: addr_by_name, shape_by_name),
+   Proofs/C01FnP.v.
+   Clause -> theorem: any ordering accepted iff permutation (C01_new_iff_perm,
+   C01_non_permutation_rejected, C01_source_order_is_own_names); reads/writes exactly the element
+   matched by name (C01_get_by_name, C01_get_present, C01_set_exact, C01_write_no_alias,
+   C01_from_fn_get_by_name); reported shape permuted the same way (C01_shape_permuted,
+   C01_tables_inverse); out-of-range coordinates absent / panicking and never aliasing, for
+   coordinates of ANY size and in both build profiles (C01_oob_never_aliases,
+   C01_panicking_accessors, C01_access_index_machine); constructors (the C01_ctor_ and C01_from_fn_ theorems).
+   Carried by the correspondence only: that shared / mutable / owned access and Clone /
+   non-Clone element types are the same function (harness cross-checks, one model function),
+   and the const-generic instances D = 0..6. *)
 From Coq Require Import List ZArith NArith Bool Arith Permutation.
-From EasyML Require Import Base.Sx Model.Shape Model.Tensor Proofs.ShapeP Proofs.C01P.
+From EasyML Require Import Base.Sx Model.Shape Model.Tensor Model.TensorFn Model.U64
+     Model.Fallible Model.Transform Proofs.ShapeP Proofs.C01P Proofs.C01FnP.
 Import ListNotations.
 Open Scope N_scope.
 
@@ -109,6 +123,63 @@ Theorem C01_ctor_establishes_invariant : forall A sh (data : list A) t,
   tensor_try_from sh data = Ok t -> tensor_inv t /\ t_shape t = sh /\ t_data t = data.
 Proof. exact @try_from_inv. Qed.
 
+(* Tensor::from_fn: accepted exactly for a valid shape (whose element count fits a usize),
+   otherwise a panic; it IS Tensor::from on the row-major enumeration of the shape's indexes *)
+Theorem C01_from_fn_is_from : forall A sh (f : list N -> A),
+  tensor_from_fn sh f = tensor_from sh (map f (all_indexes (lens_of sh))).
+Proof. exact @from_fn_as_from. Qed.
+
+Theorem C01_from_fn_validation : forall A sh (f : list N -> A),
+  ((exists t, tensor_from_fn sh f = Ok t) <-> valid_shape sh /\ elements sh <= usize_max) /\
+  (~ (valid_shape sh /\ elements sh <= usize_max) -> tensor_from_fn sh f = Panic).
+Proof. intros A sh f. split; [exact (from_fn_ok_iff sh f)|exact (from_fn_rejects sh f)]. Qed.
+
+(* ... and the tensor it builds holds, at EVERY index tuple, the producer's value for that tuple
+   (absent outside the shape), also when read through any accepted ordering of the names *)
+Theorem C01_from_fn_get : forall A sh (f : list N -> A) t,
+  tensor_from_fn sh f = Ok t ->
+  t_shape t = sh /\ tensor_inv t /\ t_data t = map f (all_indexes (lens_of sh)) /\
+  forall idx, t_get t idx = if in_range_b idx (lens_of sh) then Some (f idx) else None.
+Proof. exact @from_fn_get. Qed.
+
+Theorem C01_from_fn_get_by_name : forall A sh (f : list N -> A) t req a idx,
+  tensor_from_fn sh f = Ok t -> length req = length sh -> length idx = length sh ->
+  access_try_from t req = Ok a ->
+  access_get a idx =
+    if in_range_b idx (lens_of (access_shape a)) then Some (f (coords_by_name sh req idx)) else None.
+Proof. exact @from_fn_get_by_name. Qed.
+
+(* Tensor::index / TensorAccess::from_source_order / from_memory_order: the same access as
+   index_by(the tensor's own names), reporting the tensor's shape and addressing it directly *)
+Theorem C01_source_order_is_own_names : forall A (t : tensor A),
+  access_try_from t (names_of (t_shape t)) = Ok (access_from_source_order t) /\
+  access_from_memory_order t = Ok (Some (access_from_source_order t)) /\
+  access_shape (access_from_source_order t) = t_shape t /\
+  forall idx, length idx = length (t_shape t) ->
+    access_get (access_from_source_order t) idx = t_get t idx.
+Proof.
+  intros A t. destruct (source_order_is_own_names t) as [H1 H2].
+  destruct (source_order_access t) as [H3 H4]. repeat split; try assumption.
+  intros idx Hl. exact (proj1 (H4 idx Hl)).
+Qed.
+
+(* the panicking accessors (get / get_ref / get_ref_mut) panic exactly where the fallible ones
+   report absence and otherwise return the same element *)
+Theorem C01_panicking_accessors : forall A (a : access A) idx,
+  (access_get_or_panic a idx = Panic <-> access_get a idx = None) /\
+  (forall x, access_get_or_panic a idx = Ok x <-> access_get a idx = Some x).
+Proof. exact @get_or_panic_spec. Qed.
+
+(* machine arithmetic: for every tensor a validating constructor accepts, every accepted
+   ordering and EVERY index tuple (coordinates up to usize::MAX and beyond), the position
+   computation `index += n * strides[d]` neither panics in an overflow-checking build nor wraps
+   in a release build: it is the ideal position of C01_get_by_name or absent *)
+Theorem C01_access_index_machine : forall A (m : mode) sh (data : list A) t req a idx,
+  tensor_try_from sh data = Ok t -> access_try_from t req = Ok a ->
+  access_index_m m a idx =
+  Ok (get_index_direct (map_dimensions_to_source (a_tbl a) idx 0) (t_strides t) (t_shape t)).
+Proof. exact @access_index_machine. Qed.
+
 (* non-vacuity: a 2x3x2 tensor addressed in the cyclic (non-involutive) order [c; a; b] meets
    every hypothesis, and index [1;0;2] (c=1, a=0, b=2) reads storage position 0*6+2*2+1 = 5 *)
 Example C01_nonvacuous :
@@ -120,6 +191,19 @@ Example C01_nonvacuous :
     access_get a [1; 0; 2] = Some 105%Z /\
     access_get a [2; 0; 0] = None.
 Proof. do 2 eexists. vm_compute. repeat split; try reflexivity; apply N.lt_0_1 || constructor. Qed.
+
+(* from_fn on the same shape with producer [a;b;c] |-> 100a+10b+c, read in the order [c;a;b]:
+   index [1;0;2] is (c=1, a=0, b=2), i.e. the producer's value at [0;2;1]; 2^63 in the position
+   of the first stored dimension is absent in both build profiles *)
+Example C01_nonvacuous_from_fn :
+  exists t a,
+    tensor_from_fn [(0%nat, 2); (1%nat, 3); (2%nat, 2)]
+      (fun idx => fold_left (fun acc i => 10 * acc + i) idx 0) = Ok t /\
+    access_try_from t [2%nat; 0%nat; 1%nat] = Ok a /\
+    access_get a [1; 0; 2] = Some 21 /\
+    access_index_m Release a [0; 9223372036854775808; 0] = Ok None /\
+    access_index_m Debug a [0; 9223372036854775808; 0] = Ok None.
+Proof. do 2 eexists. repeat (split; [vm_compute; reflexivity|]). vm_compute; reflexivity. Qed.
 
 Print Assumptions C01_new_iff_perm.
 Print Assumptions C01_non_permutation_rejected.
@@ -134,3 +218,10 @@ Print Assumptions C01_write_no_alias.
 Print Assumptions C01_ctor_validation.
 Print Assumptions C01_ctor_rejects.
 Print Assumptions C01_ctor_establishes_invariant.
+Print Assumptions C01_from_fn_is_from.
+Print Assumptions C01_from_fn_validation.
+Print Assumptions C01_from_fn_get.
+Print Assumptions C01_from_fn_get_by_name.
+Print Assumptions C01_source_order_is_own_names.
+Print Assumptions C01_panicking_accessors.
+Print Assumptions C01_access_index_machine.
